@@ -5,7 +5,12 @@
 
        Load(g)     cur := atomic.LoadInt32(&curNum)          (hook matcher.loaded)
        RetLast(g)  if cur >= N  return results[N-1]
-       Add(g)      atomic.AddInt32(&curNum, 1); return results[cur]   (hook matcher.added)
+       Add(g)      atomic.AddInt32(&curNum, 1)                         (hook matcher.added)
+       Ret(g)      return results[cur]
+   (Add and Ret are separate steps although nothing shared is touched between them in the pinned code: the replay holds a
+   caller at the hook after its add while others run, so an implementation that does more after the add - e.g. "corrects"
+   the cursor - is exercised with its extra step interleaved.)
+       Probe       when every caller is done: one more call by a fresh caller (0): element min(curNum, N - 1)
 
    hist records every step with the index returned (-1 while the call is still running). *)
 EXTENDS Integers, Sequences, FiniteSets, TLC, Json
@@ -40,16 +45,25 @@ RetLast(g) == /\ pc[g] = "loaded" /\ loc[g] >= N
 
 Add(g) == /\ pc[g] = "loaded" /\ loc[g] < N
           /\ curNum' = curNum + 1
+          /\ pc' = [pc EXCEPT ![g] = "added"]
+          /\ hist' = Append(hist, [g |-> g, act |-> "Add", idx |-> -1])
+          /\ UNCHANGED <<loc, started, done, retd>>
+
+Ret(g) == /\ pc[g] = "added"
           /\ pc' = [pc EXCEPT ![g] = "idle"]
           /\ done' = [done EXCEPT ![g] = @ + 1]
           /\ retd' = Append(retd, [g |-> g, idx |-> loc[g], s |-> started[g], e |-> Len(hist) + 1])
-          /\ hist' = Append(hist, [g |-> g, act |-> "Add", idx |-> loc[g]])
-          /\ UNCHANGED <<loc, started>>
-
-Next == \E g \in G : Load(g) \/ RetLast(g) \/ Add(g)
-Spec == Init /\ [][Next]_vars
+          /\ hist' = Append(hist, [g |-> g, act |-> "Ret", idx |-> loc[g]])
+          /\ UNCHANGED <<curNum, loc, started>>
 
 AllDone == \A g \in G : done[g] = K /\ pc[g] = "idle"
+Probed == hist # <<>> /\ hist[Len(hist)].act = "Probe"
+Probe == /\ AllDone /\ ~Probed
+         /\ hist' = Append(hist, [g |-> 0, act |-> "Probe", idx |-> IF curNum >= N THEN N - 1 ELSE curNum])
+         /\ UNCHANGED <<curNum, pc, loc, done, started, retd>>
+
+Next == (\E g \in G : Load(g) \/ RetLast(g) \/ Add(g) \/ Ret(g)) \/ Probe
+Spec == Init /\ [][Next]_vars
 
 \* ---- what C05 states for concurrent callers ----
 InRange == \A i \in 1..Len(retd) : retd[i].idx \in 0..(N - 1)
@@ -63,6 +77,6 @@ RealTimeMonotone == \A i, j \in 1..Len(retd) : retd[i].e < retd[j].s => retd[i].
 \* sequential use (one caller): the k-th call returns element min(k, N)
 SequentialExact == (Cardinality(G) = 1) => \A i \in 1..Len(retd) : retd[i].idx = (IF i <= N THEN i - 1 ELSE N - 1)
 
-Emit == AllDone => PrintT(ToJson(hist))
-View == <<curNum, pc, loc, done>>
+Emit == Probed => PrintT(ToJson(hist))
+View == <<curNum, pc, loc, done, Probed>>
 =============================================================================
